@@ -28,7 +28,7 @@ OUT_BOUND: Dict[str, Callable[[int], int]] = {
     "rl": lambda n: 128 * n,
     "ahx": lambda n: (n + 1) // 2,
     "a85": lambda n: 4 * n + 16,
-    "lzw": lambda n: 8 * n * (8 * n + 1),
+    "lzw": lambda n: (8 * n + 1) * (8 * n + 2),
 }
 # line events: measured worst cases are about 4/byte (rl), 11/byte (a85), 30/byte (lzw; 240/byte when every code is
 # the clear code); the bounds leave a factor 1.3-3
@@ -263,6 +263,7 @@ def run_codec(ctx: C.Ctx) -> None:
         line, out, inp = check_decoder(ctx, dec, data, "extreme", fails)
         lines.append(line); impl.append(out); meta.append(("dec:" + dec, inp))
         ctx.case(("dec", dec, data), True)
+    run_calls(ctx, lines, impl, meta, fails)
     for f in fails.values():
         ctx.fail(f)
     if ctx.driver is None:
@@ -273,6 +274,50 @@ def run_codec(ctx: C.Ctx) -> None:
             ctx.disagree(op, inp, i_out, m_out)
 
 
+def check_calls(ctx: C.Ctx, g: Dict[int, Any], x, strict: bool, fails: Dict[str, Any]):
+    """getobj calls of pdftypes.resolve1 on the graph (counted by StubDoc) against `distinct object numbers + 1`."""
+    from pdfminer import pdftypes
+    from harness.props import c13_model as M
+    doc = M.StubDoc()
+    for n, v in g.items():
+        doc.objs[n] = M.to_py(v, doc)
+    px = M.to_py(x, doc)
+    res = M.guarded(lambda: pdftypes.resolve1(px), strict=strict)
+    bound = len(g) + 1
+    inp = {"op": "calls", "strict": strict, "graph": {str(n): M.tok(v) for n, v in g.items()}, "x": M.tok(x)}
+    if res[0] == "HANG" or doc.calls > bound:
+        what = "resolve1 makes more getobj calls than there are object numbers"
+        fails.setdefault(what, C.Failure(what, inp, "getobj calls <= %d" % bound,
+                                         "HANG" if res[0] == "HANG" else "getobj calls = %d" % doc.calls,
+                                         {"cls": "hang" if res[0] == "HANG" else "budget", "exc": "", "where": "model:resolve1", "kind": "graph"}))
+    ctx.branch("calls:resolve1:%s" % ("bound" if doc.calls == bound else "0" if doc.calls == 0 else "some"))
+    return "calls " + M.tok(x), "V %d %d" % (doc.calls, bound), inp
+
+
+def run_calls(ctx: C.Ctx, lines: List[str], impl: List[str], meta: List[Any], fails: Dict[str, Any]) -> None:
+    from harness.props import c13_model as M
+    rng = ctx.rng
+    for gi in range(ctx.n(60, 2000)):
+        g = M.gen_graph(rng)
+        if g and rng.random() < 0.4:
+            # a chain through every object, ending in a missing object / a cycle / a value: the bound is attained
+            ids = list(g.keys())
+            rng.shuffle(ids)
+            tail = rng.choice([("ref", max(ids) + 5), ("ref", ids[0]), ("int", 1)])
+            for a, b in zip(ids, ids[1:] + [None]):
+                g[a] = ("ref", b) if b is not None else tail
+            xs = [("ref", ids[0]), ("ref", rng.choice(ids))]
+        else:
+            xs = [("ref", rng.randint(0, len(g) + 2)) for _ in range(3)] + [M.gen_value(rng, len(g), 1)]
+        lines.append(" ".join(["G", str(len(g))] + ["%d %s" % (n, M.tok(v)) for n, v in g.items()]))
+        impl.append("ok")
+        meta.append(("G", None))
+        for x in xs:
+            line, out, inp = check_calls(ctx, g, x, rng.random() < 0.3, fails)
+            lines.append(line); impl.append(out); meta.append(("calls", inp))
+            ctx.case(("calls", tuple(sorted(inp["graph"].items())), inp["x"]), x[0] == "ref")
+
+
 def replay_codec(ctx: C.Ctx, inp: Dict[str, Any]) -> bool:
     """Replays a stored `dec` / `sdec` input; returns False when the input is not one of this module."""
     op = inp.get("op")
@@ -281,6 +326,10 @@ def replay_codec(ctx: C.Ctx, inp: Dict[str, Any]) -> bool:
         check_decoder(ctx, inp["dec"], bytes.fromhex(inp["data"]), "replay", fails)
     elif op == "sdec":
         check_stream(ctx, [bytes.fromhex(n) for n in inp["names"]], bytes.fromhex(inp["data"]), fails)
+    elif op == "calls":
+        from harness.props import c13_model as M
+        g = {int(n): M.untok(t.split(" "))[0] for n, t in inp["graph"].items()}
+        check_calls(ctx, g, M.untok(inp["x"].split(" "))[0], bool(inp.get("strict")), fails)
     else:
         return False
     ctx.case(("replay-codec", repr(sorted(inp.items(), key=str))), True, branch="replay:codec:" + op)
